@@ -28,7 +28,7 @@ def spellings_from(f, wd):
 
 
 def canon(p, wd=WD):
-    return os.path.normpath(os.path.join(wd, p))
+    return os.path.abspath(os.path.join(wd, p))      # a relative working directory is relative to the invoking one
 
 
 def wd_of(spec):
@@ -133,6 +133,12 @@ def structured():
     yield [([], ["../other/x"], WD + "/sub"), (["x"], ["../y"], WD + "/other")], []
     yield [([], ["."], WD + "/sub"), (["sub"], ["y"], WD)], []                     # the working directory itself
     yield [(["../x"], ["../y"], WD + "/sub"), (["y"], ["x"], WD)], []              # 2-cycle across directories
+    # relative working directories (Target's default is "."): resolved against the invoking directory
+    cwd = os.getcwd()
+    yield [([], ["x"], "."), ([os.path.join(cwd, "x")], ["y"], WD)], []
+    yield [([], [os.path.join(cwd, "rel", "x")], WD), (["x"], ["y"], "rel")], []
+    yield [([], ["x"], "rel"), (["rel/x"], ["y"], ".")], []
+    yield [([], ["../x"], "rel/deeper"), ([os.path.join(cwd, "rel", "x")], [], WD)], []
 
 
 def search(seed=0, budget=30000):
